@@ -239,31 +239,21 @@ theorem gsubLoop_closed (all : List Rule) : ∀ (fuel : Nat) (s : St) (work : Li
         · exact h1
       · intro g hg; exact has_mono h hs.1 hs.2 (hout g hg)
 
-/-- when step 2 of `SubsetGsub` ends (state `t`), the glyph set respects every GSUB rule -/
-theorem subsetGsub_closed {o : Order} {s s1 : St} {l : Layout GsubSub} {lay : Layout GsubOut}
-    (h : Inv s) (hp : ∀ x, (o.rules x).Perm x) (hr : subsetGsub o s l = some (s1, lay)) :
-    ∃ t : St, Inv t ∧ Ext s t ∧ Ext t s1 ∧ ∀ r ∈ rulesOf l, Fires t r := by
-  unfold subsetGsub at hr
-  simp only at hr
-  split at hr
-  · cases hr
-  · rename_i t ht
-    injection hr with hr
-    have hg := gsubLoop_good _ _ _ _ h ht
-    have hl := subLookups_good l.lookups t hg.1
-    have h1 : s1 = (subLookups t l.lookups).1 := (congrArg Prod.fst hr).symm
-    refine ⟨t, hg.1, hg.2, by rw [h1]; exact hl.2, ?_⟩
-    have hli : LI s ((o.rules (rulesOf l)).map fun r => (Int.ofNat (missing s.newGid r.ins), r))
-        (o.rules (rulesOf l)) := by
-      refine ⟨?_, ?_⟩
-      · intro w hw
-        obtain ⟨r, _, rfl⟩ := List.mem_map.1 hw
-        rfl
-      · intro r hrm
-        left
-        exact ⟨_, List.mem_map.2 ⟨r, hrm, rfl⟩⟩
-    have := gsubLoop_closed (o.rules (rulesOf l)) _ _ _ t h hli ht
-    intro r hrm
-    exact this r ((hp (rulesOf l)).mem_iff.2 hrm)
+/-- when `addGsubGlyphs` returns, the glyph set respects every GSUB rule -/
+theorem gsubClose_closed {ro : List Rule → List Rule} {s t : St} {l : Layout GsubSub}
+    (h : Inv s) (hp : ∀ x, (ro x).Perm x) (hr : gsubClose ro s l = some t) :
+    ∀ r ∈ rulesOf l, Fires t r := by
+  have hli : LI s ((ro (rulesOf l)).map fun r => (Int.ofNat (missing s.newGid r.ins), r))
+      (ro (rulesOf l)) := by
+    refine ⟨?_, ?_⟩
+    · intro w hw
+      obtain ⟨r, _, rfl⟩ := List.mem_map.1 hw
+      rfl
+    · intro r hrm
+      left
+      exact ⟨_, List.mem_map.2 ⟨r, hrm, rfl⟩⟩
+  have := gsubLoop_closed (ro (rulesOf l)) _ _ _ t h hli hr
+  intro r hrm
+  exact this r ((hp (rulesOf l)).mem_iff.2 hrm)
 
 end SfntV.Subset
